@@ -65,7 +65,11 @@ def main():
         "checks": checks,
         "notes": "Static analysis only. exit 0 = all obligations discharged; exit 1 = VIOLATION lines; exit 2 = analysis broken "
                  "(anchor vanished / floor not reached / extractor failure), never a pass. Fixed defects are listed in "
-                 "known_findings.txt (fixed: entries suppress nothing).",
+                 "known_findings.txt (fixed: entries suppress nothing). Every run re-extracts the facts from /repo's current "
+                 "headers; members that the hand-written driver does not instantiate (added later) are reached through a "
+                 "driver generated at run time in the cache directory (rules/autodrive.py). Calibration: 325 independently "
+                 "written breaking changes (seeded/), 35 mutants and about 270 behaviour-preserving patches (selftest/), see "
+                 "DESIGN.md section 9.",
         "not_applicable": na,
     }
     json.dump(m, open(os.path.join(VERIF, "MANIFEST.json"), "w"), indent=1)
